@@ -425,7 +425,7 @@ func vfErrCode(err error) string {
 
 // vfObserveOpen: openGroupEnvelope and openMetadataEntry on the same bytes
 func vfObserveOpen(g *protocoltypes.Group, e vfEnv, ev map[string]any) {
-	meta, msg, err := openGroupEnvelope(g, e.bytes)
+	meta, msg, err := vfOpenGroupEnvelope(g, e.bytes)
 	ev["ok"] = err == nil
 	ev["code"] = vfErrCode(err)
 	if err == nil {
@@ -436,7 +436,7 @@ func vfObserveOpen(g *protocoltypes.Group, e vfEnv, ev map[string]any) {
 	ob, merr := op.Marshal()
 	vfMust2(merr, "marshal operation")
 	ent := &entry.Entry{Payload: ob, Hash: vfCIDOf(ob)}
-	gme, emsg, err := openMetadataEntry(nil, ent, g)
+	gme, emsg, err := vfOpenMetadataEntry(nil, ent, g)
 	ev["eok"] = err == nil
 	if err == nil {
 		mb, _ := proto.Marshal(emsg)
@@ -498,7 +498,7 @@ func vfMetaFlipSweep(w *vfMW, id int, ty, who string) []map[string]any {
 		return env
 	}
 	// sanity of the re-sealing path itself: unflipped must behave like the helper's envelope
-	_, _, rerr := openGroupEnvelope(w.g, seal(e.payload, e.sig))
+	_, _, rerr := vfOpenGroupEnvelope(w.g, seal(e.payload, e.sig))
 	fields := []struct {
 		name string
 		n    int
@@ -519,7 +519,7 @@ func vfMetaFlipSweep(w *vfMW, id int, ty, who string) []map[string]any {
 	for _, f := range fields {
 		nacc, first := 0, -1
 		for i := 0; i < f.n; i++ {
-			if _, _, err := openGroupEnvelope(w.g, f.mk(i)); err == nil {
+			if _, _, err := vfOpenGroupEnvelope(w.g, f.mk(i)); err == nil {
 				nacc++
 				if first < 0 {
 					first = i
